@@ -31,6 +31,14 @@ def _fi_sum_checked(prog):
         if f.promoted or f.owner != "frequencies::sketch::FrequentItemsSketch" or not f.item_name.startswith("deserialize"):
             continue
         chk = [b for b, site in f.calls() if (site.get("callee") or "").endswith("::checked_add")]
+        # ... or folded through an iterator adaptor: a call in f that is handed a closure of f containing the checked_add
+        clos = [g.id for g in prog.fns.values() if not g.promoted and g.id.startswith(f.id + "::{closure") and
+                any((st.get("callee") or "").endswith("::checked_add") for _, st in g.calls())]
+        if clos:
+            sf = sym.Sym(prog, f, ifconv=False)
+            for b, site in f.calls():
+                if any(sym.contains(sf.at(b, "t").operand(a), lambda t: t[0] == "agg" and any(t[1] == "closure:" + c for c in clos)) for a in site["args"]):
+                    chk.append(b)
         upd = [b for b, site in f.calls() if (site.get("callee") or "").endswith("::update_with_count")]
         if not upd:
             continue
@@ -314,6 +322,61 @@ def object_invariants(prog, res, ents):
     res.rule("C14.B", n, 1, "checked subtractions over self fields in methods of deserializable types, against the reader's Ok conditions")
 
 
+def aux_slot_agreement(prog, res):
+    """C14.S: every Array4 routine that addresses the aux map derives the slot from the coupon by the same function as
+    Array4::update does (a reader that skips the lg_k mask files an exception under a key the update path never looks up: the
+    decoded object later hits `unreachable!`/`expect` in shift_to_bigger_cur_min / update)"""
+    import random
+    rnd = random.Random(14)
+    sites = []
+    for f in C.fns_of(prog, "hll::array4::Array4"):
+        s = sym.Sym(prog, f)
+        for b, site in f.calls():
+            cal = site.get("callee") or ""
+            if cal.startswith("hll::aux_map::AuxMap::") and cal.rsplit("::", 1)[-1] in ("insert", "replace", "get") and len(site["args"]) >= 2:
+                e = C.resolve_var(prog, f, s.at(b, "t").operand(site["args"][1]), s)
+                lv = formula.leaves(e)
+                ck = [k for k in lv if k == "coupon" or (k.startswith("read_u32") and "@" in k)]
+                lk = [k for k in lv if k.endswith("lg_config_k")]
+                others = [k for k in lv if k not in ck and k not in lk and not any(x.startswith(k + ".") for x in lk)]
+                if len(ck) == 1 and len(lk) <= 1 and not others:
+                    sites.append((f, cal.rsplit("::", 1)[-1], e, ck[0], lk[0] if lk else None, site.get("span")))
+    ref = [x for x in sites if x[0].item_name == "update"]
+    n = 0
+    if not ref:
+        res.rule("C14.S", 0, 2, "aux-map slot derivations in Array4")
+        return
+    rf = ref[0]
+    for (f, op, e, ck, lk, span) in sites:
+        if f.item_name == "update":
+            continue
+        n += 1
+        res.obligations += 1
+        bad = None
+        try:
+            for _ in range(200):
+                c = rnd.getrandbits(32)
+                lg = rnd.randrange(4, 22)
+                env_a = {"@prog": prog, ck: c}
+                if lk:
+                    env_a[lk] = lg
+                env_r = {"@prog": prog, rf[3]: c}
+                if rf[4]:
+                    env_r[rf[4]] = lg
+                got, want = formula.evaluate(e, env_a), formula.evaluate(rf[2], env_r)
+                if got != want:
+                    bad = "coupon %#x lg_k %d: slot %d, Array4::update uses %d" % (c, lg, got, want)
+                    break
+        except formula.Uneval:
+            res.undecided += 1
+            continue
+        if bad is None:
+            res.discharged += 1
+        else:
+            res.violate("C14.S", "C14.S|%s|%s" % (f.id, op), "%s addresses the aux map (%s) with %s, which is not the slot Array4::update derives from the same coupon (%s)" % (f.id, op, sym.show(e)[:80], bad), f.id, span)
+    res.rule("C14.S", n, 2, "aux-map slot derivations in Array4 compared with Array4::update")
+
+
 def run(prog, ctx):
     res = Result("C14")
     ents, missing = entries(prog)
@@ -330,6 +393,7 @@ def run(prog, ctx):
     n_tainted = 0
     nan_rule(prog, res, ents)
     object_invariants(prog, res, ents)
+    aux_slot_agreement(prog, res)
     nan_obl = res.obligations
     for o in an.obligations:
         b = srcs(o.taint)
@@ -350,7 +414,9 @@ def run(prog, ctx):
             detail = o.detail
             if o.kind == "alloc":
                 detail = "%s[elem=%s]" % (o.detail, o.operands[1][1])
-            key = "C14|%s|%s|%s|%s|src=%s" % (o.kind, o.fn, detail, o.label, ",".join(sorted(set(short_src(t) for t in b))))
+            # the key names the sink (kind, function, operation, operand); the byte sources are in the message, not in the key:
+            # their block numbers move under harmless edits of the reader
+            key = "C14|%s|%s|%s|%s" % (o.kind, o.fn, detail, o.label)
             acc = ACCEPTED_INVARIANTS.get((o.fn, o.label))
             if acc is not None and acc[1](prog):
                 kinds[o.kind][3] += 1
